@@ -714,6 +714,7 @@ type c01Case struct {
 	tag      string
 	rename   bool // KeepVarNames off
 	minified bool
+	seeds    int // host worlds per program under node (0 = 2)
 }
 
 func c01Ver2020(v int) bool { return v == 0 || v >= 2020 }
@@ -770,6 +771,7 @@ func c01RunStage(c *Ctx, name, rule string, cases []*c01Case, exhaustive bool, n
 		return err
 	}
 	unmodelled := 0
+	var diffCases []*c01Case
 	for k, i := range idx {
 		cs := cases[i]
 		key := fmt.Sprintf("%s [v%d]", cs.src, cs.ver)
@@ -789,7 +791,14 @@ func c01RunStage(c *Ctx, name, rule string, cases []*c01Case, exhaustive bool, n
 			continue
 		}
 		if string(got) != cs.out {
-			c.R.Add(h.Finding{Stage: name, Kind: "diff", What: "model.c01.min ≠ js.Minify", Input: cs.src, Config: fmt.Sprintf("version=%d enc=%s", cs.ver, cs.prog.Enc()), Impl: cs.out, Model: string(got)})
+			diffCases = append(diffCases, cs)
+			// at most 8 correspondence differences per stage are listed (the report holds 40 findings in all: the node
+			// stages that follow must be able to add the failing inputs)
+			if len(diffCases) <= 8 {
+				c.R.Add(h.Finding{Stage: name, Kind: "diff", What: "model.c01.min ≠ js.Minify", Input: cs.src, Config: fmt.Sprintf("version=%d enc=%s", cs.ver, cs.prog.Enc()), Impl: cs.out, Model: string(got)})
+			} else {
+				st.Tag("diff-not-listed")
+			}
 		}
 	}
 	if unmodelled > 0 {
@@ -807,6 +816,14 @@ func c01RunStage(c *Ctx, name, rule string, cases []*c01Case, exhaustive bool, n
 		}
 		if nodeShare >= 100 || (i*7919+int(c.Seed))%100 < nodeShare {
 			sample = append(sample, cs)
+		}
+	}
+	// every case on which model and real code disagree is executed (with more host worlds): a behavioural change
+	// behind the disagreement yields a failing input
+	for _, cs := range diffCases {
+		cs.seeds = 8
+		if len(diffCases) > 400 {
+			cs.seeds = 2
 		}
 	}
 	if c.Search {
@@ -841,6 +858,18 @@ func c01RunStage(c *Ctx, name, rule string, cases []*c01Case, exhaustive bool, n
 		}
 		sample = cut
 	}
+	if len(diffCases) > 3000 {
+		diffCases = diffCases[:3000]
+	}
+	inSample := map[*c01Case]bool{}
+	for _, cs := range sample {
+		inSample[cs] = true
+	}
+	for _, cs := range diffCases {
+		if !inSample[cs] {
+			sample = append(sample, cs)
+		}
+	}
 	return c01NodeStage(c, name+"-node", sample, true)
 }
 
@@ -866,11 +895,18 @@ func c01DiffClass(why string) string {
 func c01NodeStage(c *Ctx, name string, cases []*c01Case, fragment bool) error {
 	st := c.R.StartStage(name, "input and real output executed by node in fresh vm contexts with recording host functions/objects (2 seeded host worlds per program): same call trace, same final globals, same completion; non-trivial = output text differs from input text")
 	var pairs []c01Pair
+	lo := make([]int, len(cases)+1)
 	for i, cs := range cases {
-		for k := 0; k < 2; k++ {
+		n := 2
+		if cs.seeds > 0 {
+			n = cs.seeds
+		}
+		lo[i] = len(pairs)
+		for k := 0; k < n; k++ {
 			pairs = append(pairs, c01Pair{ID: len(pairs), A: cs.src, B: cs.out, Seed: int(c.Seed)*1000 + i*2 + k})
 		}
 	}
+	lo[len(cases)] = len(pairs)
 	res, err := c01NodeCompare(pairs)
 	if err != nil {
 		return err
@@ -883,8 +919,8 @@ func c01NodeStage(c *Ctx, name string, cases []*c01Case, fragment bool) error {
 	skipped := 0
 	for i, cs := range cases {
 		st.Count(cs.src+" ["+cs.cfg()+"]", cs.out != cs.src)
-		for k := 0; k < 2; k++ {
-			r := res[i*2+k]
+		for k := lo[i]; k < lo[i+1]; k++ {
+			r := res[k]
 			if r.Skip != "" {
 				skipped++
 				st.Tag("skip:" + strings.SplitN(r.Skip, ":", 2)[0])
@@ -919,6 +955,7 @@ func c01NodeStage(c *Ctx, name string, cases []*c01Case, fragment bool) error {
 			known = append(known, ok && string(got) == "1")
 		}
 	}
+	listed := 0
 	for i, b := range bads {
 		kn := ""
 		if fragment {
@@ -938,6 +975,10 @@ func c01NodeStage(c *Ctx, name string, cases []*c01Case, fragment bool) error {
 		if kn != "" {
 			c.R.ExcludedKnown++
 			st.Tag("known:" + kn)
+			continue
+		}
+		if listed++; listed > 10 {
+			st.Tag("fail-not-listed") // at most 10 failing inputs per stage are listed
 			continue
 		}
 		c.R.Add(h.Finding{Stage: name, Kind: "fail", What: "behaviour of the minified program differs under node: " + c01DiffClass(b.res.Why),
@@ -1047,40 +1088,40 @@ var c01FixedCorpus = []string{
 
 func c01KnownAndCorpus(c *Ctx) error {
 	st := c.R.StartStage("known+corpus", "replay of every open known finding (must still differ under node, else NOTE) and of the inputs of repaired defects (must agree under node), 8 (quick) / 32 (thorough) host-world seeds each")
-	run := func(src string, ver int, rename bool) (out string, differs bool, why string, err error) {
-		o, merr, crash := c01Minify(src, ver, !rename)
-		if crash != "" || merr != nil {
-			return "", true, "minify failed: " + crash + fmt.Sprint(merr), nil
-		}
-		var pairs []c01Pair
-		for k := 0; k < c.N(8, 32); k++ {
-			pairs = append(pairs, c01Pair{ID: k, A: src, B: o, Seed: k})
-		}
-		res, e := c01NodeCompare(pairs)
-		if e != nil {
-			return o, false, "", e
-		}
-		for _, r := range res {
-			if r.Skip == "" && !r.Same {
-				return o, true, r.Why, nil
-			}
-		}
-		return o, false, "", nil
+	// all programs are minified first, then executed by node in one batch
+	type job struct {
+		src, out, fail string
+		rename        bool
+		known         *h.KnownEntry
+		lo, hi        int // pairs[lo:hi]
 	}
-	for _, k := range h.Known("C01") {
+	var jobs []*job
+	var pairs []c01Pair
+	add := func(src string, rename bool, k *h.KnownEntry) {
+		j := &job{src: src, rename: rename, known: k}
+		o, merr, crash := c01Minify(src, 0, !rename)
+		if crash != "" || merr != nil {
+			j.fail = "minify failed: " + crash + fmt.Sprint(merr)
+		} else {
+			j.out = o
+			j.lo = len(pairs)
+			for k := 0; k < c.N(8, 32); k++ {
+				pairs = append(pairs, c01Pair{ID: len(pairs), A: src, B: o, Seed: k})
+			}
+			j.hi = len(pairs)
+		}
+		jobs = append(jobs, j)
+	}
+	known := h.Known("C01")
+	for i := range known {
+		k := &known[i]
 		if k.Status != "open" {
 			continue
 		}
-		src := k.ReplayStr("src")
 		rename, _ := k.Replay["rename"].(bool)
-		out, differs, why, err := run(src, 0, rename)
-		if err != nil {
-			return err
-		}
-		st.Count("known "+k.ID+": "+src, true)
-		c.R.AddKnown(k.ID, differs, k.What, out+" | "+why)
+		add(k.ReplayStr("src"), rename, k)
 	}
-	for _, k := range h.Known("C01") {
+	for _, k := range known {
 		if k.Status == "fixed" {
 			if src := k.ReplayStr("input"); src != "" {
 				c01FixedCorpus = append(c01FixedCorpus, src)
@@ -1089,14 +1130,28 @@ func c01KnownAndCorpus(c *Ctx) error {
 	}
 	for _, src := range c01FixedCorpus {
 		for _, rename := range []bool{false, true} {
-			out, differs, why, err := run(src, 0, rename)
-			if err != nil {
-				return err
+			add(src, rename, nil)
+		}
+	}
+	res, err := c01NodeCompare(pairs)
+	if err != nil {
+		return err
+	}
+	for _, j := range jobs {
+		differs, why := j.fail != "", j.fail
+		for _, r := range res[j.lo:j.hi] {
+			if !differs && r.Skip == "" && !r.Same {
+				differs, why = true, r.Why
 			}
-			st.Count(fmt.Sprintf("corpus %s rename=%v", src, rename), out != src)
-			if differs {
-				c.R.Add(h.Finding{Stage: "known+corpus", Kind: "fail", What: "regression corpus: behaviour differs under node: " + c01DiffClass(why), Input: src, Config: fmt.Sprintf("version=0 keepVarNames=%v", !rename), Impl: out, Model: why})
-			}
+		}
+		if j.known != nil {
+			st.Count("known "+j.known.ID+": "+j.src, true)
+			c.R.AddKnown(j.known.ID, differs, j.known.What, j.out+" | "+why)
+			continue
+		}
+		st.Count(fmt.Sprintf("corpus %s rename=%v", j.src, j.rename), j.out != j.src)
+		if differs {
+			c.R.Add(h.Finding{Stage: "known+corpus", Kind: "fail", What: "regression corpus: behaviour differs under node: " + c01DiffClass(why), Input: j.src, Config: fmt.Sprintf("version=0 keepVarNames=%v", !j.rename), Impl: j.out, Model: why})
 		}
 	}
 	st.End()
@@ -1217,6 +1272,6 @@ func init() {
 		if err := c01Sweep(c); err != nil {
 			return err
 		}
-		return nil
+		return c01RulesStage(c)
 	})
 }
